@@ -35,7 +35,7 @@ pub fn run(ctx: &Ctx) -> Report {
     }
     par_items(ctx, "C03", &work, |&(e, code), rep| {
         let mut rng = Rng::derive(ctx.seed, crate::report::hash_of(&(0xC03u64, e, code)));
-        let values = value_grid(code, ctx.pick(8, 40, 200), &mut rng, ctx.pick(2, 12, 60));
+        let values = value_grid(code, ctx.pick(8, 64, 200), &mut rng, ctx.pick(2, 40, 100));
         let lm = lmax(ctx.tier == Tier::Thorough);
         let wms = write_methods(code);
         let mut ci = 0usize;
@@ -50,7 +50,7 @@ pub fn run(ctx: &Ctx) -> Report {
             let wwords: Vec<WWord> = if ctx.tier == Tier::Thorough && !long { WWord::ALL.to_vec() } else { vec![WWord::ALL[ci % 5], WWord::ALL[(ci / 5 + 2) % 5]] };
             for (wi, ww) in wwords.iter().enumerate() {
                 let offs = offsets_for(64, ctx.tier, &mut rng);
-                let noffs = if long { 1 } else { ctx.pick(1, 3, offs.len().min(24)) };
+                let noffs = if long { 1 } else { ctx.pick(1, 5, offs.len().min(24)) };
                 for oi in 0..noffs {
                     // offsets relative to the *reader* word vary too: take them from a per-reader list below
                     let wop = wms[(ci + oi + wi) % wms.len()];
